@@ -52,6 +52,9 @@ DoOp ==
      \/ \E i \in 1..n : \E st \in 0..n : Step(OpRec("rollaxis", <<>>, i, st, "", <<>>), RollAxis(cur, i, st))
      \/ n < 4 /\ ~HasDim(cur, "n") /\ \E pos \in 0..n : \E vals \in {<<>>, <<10, 12>>, <<10>>} :
            Step(OpRec("newaxis", <<>>, pos, 0, "n", vals), NewAxis(cur, "n", pos, vals))
+     \* newaxis(name, values=<int n>): a count - the new dimension has length n, labelled 0..n-1, the data replicated
+     \/ n < 4 /\ ~HasDim(cur, "n") /\ \E pos \in 0..n : \E cnt \in 1..2 :
+           Step(OpRec("newaxis", <<>>, pos, cnt, "n", <<>>), NewAxis(cur, "n", pos, [k \in 1..cnt |-> k - 1]))
      \/ \E w \in 0..n : (IF w = 0 THEN TRUE ELSE Len(cur.labs[w]) = 1) /\ Step(OpRec("squeeze", <<>>, w, 0, "", <<>>), Squeeze(cur, w))
      \/ \E d \in 1..n : Len(cur.labs[d]) = 1 /\ \E byint \in BOOLEAN : \E single \in BOOLEAN :
            \* (also a "repetition" by one label: the axis is relabelled, nothing is replicated)
